@@ -652,7 +652,7 @@ func c11Flags(r *fw.Run, srv *RawServer) {
 func runC11(r *fw.Run) {
 	rng := rand.New(rand.NewSource(r.Seed*101 + 11))
 	jg := &JGen{R: rng}
-	streams, whats := c11Streams(rng, jg, r.Pick(600, 6000), r.Pick(500, 1500))
+	streams, whats := c11Streams(rng, jg, r.Pick(600, 30000), r.Pick(500, 1500))
 	workers := 16
 	srvs := make([]*RawServer, workers)
 	for i := range srvs {
